@@ -68,8 +68,8 @@ def gen_wrap_consts(repo):
     m = _need(re.search(r"pub fn wrap_line<.*?\n}\n", wr, re.S), "wrap_line body")
     body = m.group(0)
     force = bool(re.search(r"let line_is_empty = new_len == graphemes_width;", body)) and \
-        bool(re.search(r"if byte_split_pos == 0 && line_is_empty \{\s*if let Some\(&\(item_len, _\)\) = graphemes\.first\(\) \{\s*"
-                       r"byte_split_pos = item_len;\s*\}\s*\}", body))
+        bool(re.search(r"\} else \{\s*(?://[^\n]*\n\s*)*if line_is_empty && taken_width == 0 \{\s*byte_split_pos \+= item_len;\s*\}\s*break;\s*\}", body)) and \
+        bool(re.search(r"width_left -= item_width;\s*taken_width \+= item_width;", body))
     sc_plain = "let next_line = if width_left == 0 {" in body
     sc_guarded = "let next_line = if width_left == 0 && !line_is_empty {" in body
     no_shortcut = bool(re.search(r"let next_line = \{\s*let mut byte_split_pos = 0;", body))
